@@ -95,8 +95,13 @@ func genOp(r *rand.Rand, cs *Case, shard int, wf bool) OpJ {
 		}
 	}
 	switch x := r.Intn(100); {
-	case x < 42:
+	case x < 28:
 		return OpJ{Op: "save", Key: rig.Hex(key), Cond: genCond(r, up, name)}
+	case x < 42:
+		// Get -> change in place -> Save of the stored pointer; sometimes with nothing changed
+		e := genCond(r, key, name)
+		e.Rv = 0
+		return OpJ{Op: "saveStored", Key: rig.Hex(key), Name: rig.Hex(name), Cond: e}
 	case x < 57:
 		return OpJ{Op: "delete", Key: rig.Hex(key), Name: rig.Hex(name)}
 	case x < 65:
